@@ -83,6 +83,7 @@ class _Dumper:
         self.in_tree = set()
         self.stack = set()
         self.skip_new_syms = False
+        self.known0 = frozenset(numbering.ids)   # objects known before this dump
         self.saw_lfric = False
         try:
             from psyclone.domain.lfric import LFRicLoop
@@ -209,7 +210,7 @@ class _Dumper:
         lines.append(f"TABLE symtab#{self.n.num(st)} of {own} "
                      f"backlink={'ok' if stn is owner else self.val(stn, 2)} "
                      f"defvis={self.val(st._default_visibility)}")
-        known = self.n.ids
+        known = self.known0
         skipped = set()
         for key, sym in st._symbols.items():
             if self.skip_new_syms and id(sym) not in known:
